@@ -631,6 +631,13 @@ def c07(tier):
              "the byte string of every region computed by the specification's recogniser (Toggle.tla mirror) from the scanned input must occur in the output, in order, and the set of tokens the formatter treats as verbatim must be exactly the regions plus asm instruction lines")
 
 
+def reflow_mc(c):
+    """MC of the second pass of the line formatter (Reflow.tla): queue = top-level ancestors of the lines with a rewritten literal."""
+    c.mc("MC_Reflow", "MC_Reflow_bug_flag.cfg", expect_violation=True, workers=2, timeout=600)
+    c.mc("MC_Reflow", "MC_Reflow_bug_root.cfg", expect_violation=True, workers=2, timeout=600)
+    c.mc("MC_Reflow", "MC_Reflow.cfg", workers=4, timeout=900)
+
+
 def mlstring_mc_and_replay(c, tier):
     """MC of the literal machine (MC_MLString) and replay of every enumerated literal through the real formatter."""
     runs = Q(tier, ["MC_MLString.cfg", "MC_MLString_q5.cfg", "MC_MLString_cr.cfg", "MC_MLString_crlf.cfg"], ["MC_MLString_7.cfg", "MC_MLString_q5.cfg", "MC_MLString_cr.cfg", "MC_MLString_crlf.cfg"])
@@ -695,6 +702,7 @@ def c12(tier):
     build(("release",))
     c = Check("C12", tier, "model_checking")
     mlstring_mc_and_replay(c, tier)
+    reflow_mc(c)
     cfgs = [{"format_multiline_strings": f, "line_ending": le, "use_tabs": t, "tab_width": tw, "wrap_column": w}
             for (f, le, t, tw, w) in [(True, "lf", False, 2, 120), (True, "crlf", False, 4, 40), (False, "lf", False, 2, 120), (True, "lf", True, 2, 30), (False, "crlf", True, 2, 60)]]
     tasks = program_tasks(tier, cfgs, [PLAIN, MIXED, CRLFTABS], cfg_mode="rotate", sample_every=Q(tier, 499, 4999))
@@ -868,6 +876,10 @@ def c18(tier):
         if i % 4 == 1:
             scen[-1]["mode"] = "stdout"
             scen[-1]["n"] = max(n, 13)
+        # every other batch under a non-default configuration (the same one for the solo runs)
+        if i % 2 == 1:
+            scen[-1]["cfg"] = [{"format_multiline_strings": "false"}, {"wrap_column": 40, "begin_style": "always_wrap"}, {"format_multiline_strings": "false", "wrap_column": 30},
+                               {"line_ending": "crlf", "use_tabs": "true"}][(i // 2) % 4]
     res = cli.run_scenarios(lambda i, sc: cli.run_batch_scenario(i, sc, texts), scen, threads=4)
     all_events = []
     ran = 0
@@ -916,7 +928,7 @@ def c18(tier):
     return c.finish(
         rule="CliWorkers.tla: every interleaving of 2 workers x 3 files and 3 workers x 4 files with failing subsets (TLC, exhaustive; with NO_CLEAR the long-then-short stale-buffer counterexample is found). "
              "Real batches (2..40 files, thorough ..200; mixed sizes, encodings, empty, undecodable and missing files; 1,2,3,8,16 threads; directory and shuffled explicit paths): every file must equal its solo result, exit status <=> some file failed; "
-             "a quarter of the batches run in stdout mode with outputs of up to several hundred KiB: the output must be the blocks `path:<LF>text<LF>` of the good files in some order, each in one piece; "
+             "half of the batches under a non-default configuration (string formatting off, narrow widths, CRLF + tabs), every third file sharing a long prefix with its neighbour; a quarter of the batches run in stdout mode with outputs of up to several hundred KiB: the output must be the blocks `path:<LF>text<LF>` of the good files in some order, each in one piece; "
              "CliExit.tla: the status for 0..512 (thorough ..65536) failing paths of each kind; "
              "the worker events recorded by the hook (buffer length before clear / after read, file length, write sequence) are validated by TLC against the model",
         assumptions=["rayon's real schedules are sampled, not enumerated; all schedules are enumerated on the model only"])
